@@ -262,4 +262,612 @@ theorem indexCore_eq_model (es : List RCell) (ml : Nat) (hn : es.length < 2 ^ 62
       simp [Gen.SrcIit.indexCore, hne, e0, e1, f1, w1, e2]
     · rw [hmodel, hl0, ← w3]
 
+
+/-! # `find_into`
+
+The translated `find_into` keeps its stack in a 64-slot vector with a top pointer `t`; the model `findLoop` recurses on a
+list (head = top).  `find_while_spec`: if the first `t` slots, read backwards, are the model's stack `S`, running the
+translated `while t > 0` loop appends to `results` exactly what `findLoop … S` returns — by functional induction on
+`findLoop`, one case per branch of the loop body.  Side conditions discharged on the way: the stack never overflows (the
+levels on it increase strictly from the top and are at most `max_level ≤ 61`, `length_le_of_increasing`), `x - 2^(k-1)` does
+not underflow and `x + 2^(k-1)`, `i0 + 2^(k+1)` do not overflow (every cell is a node inside the tree of height `K`,
+`OkC`), every index into `entries` is guarded, and `3^(max_level+2)` rounds of fuel suffice (`stackWeight`).
+`results.clear()` makes the answer independent of what the buffer held before. -/
+
+abbrev RSC := Nat × Nat × Bool
+def toSC (c : RSC) : SC := ⟨c.1, c.2.1, c.2.2⟩
+abbrev REntry := (Int × Int) × Int
+def toEntry (r : REntry) : Entry := ⟨r.1.1, r.1.2, r.2⟩
+
+def rscan (q : Query) : List RCell → List REntry
+  | [] => []
+  | c :: cs => if c.2.1.1 ≥ q.hi then [] else if q.lo < c.2.1.2 then (c.2.1, c.1) :: rscan q cs else rscan q cs
+
+theorem rscan_map (q : Query) : ∀ l : List RCell, (rscan q l).map toEntry = scan q (cells l) := by
+  intro l
+  induction l with
+  | nil => rfl
+  | cons c cs ih =>
+    simp only [rscan, cells, List.map_cons, scan]
+    have h1 : (toCell c).e.lo = c.2.1.1 := rfl
+    have h2 : (toCell c).e.hi = c.2.1.2 := rfl
+    rw [h1, h2]
+    by_cases ha : c.2.1.1 ≥ q.hi
+    · simp [ha]
+    · by_cases hb : q.lo < c.2.1.2
+      · simp only [ha, hb, if_true, if_false, List.map_cons]
+        congr 1
+      · simp only [ha, hb, if_false]
+        exact ih
+
+theorem for1_scan (es : List RCell) (q : Query) : ∀ (l : List (RCell × Nat)) (res : List REntry),
+    (∀ p ∈ l, es[p.2]? = some p.1) →
+    findInto_for1 Iit.max3 q.hi q.lo es l res = Res.ok (res ++ rscan q (l.map Prod.fst)) := by
+  intro l
+  induction l with
+  | nil => intro res _; simp [findInto_for1, rscan]
+  | cons p rest ih =>
+    intro res h
+    obtain ⟨node, i⟩ := p
+    have e1 : Rs.idx es i = Res.ok node := Rs.idx_of_getElem? (h (node, i) List.mem_cons_self)
+    have hr := fun r => ih r (fun p hp => h p (List.mem_cons_of_mem _ hp))
+    rw [findInto_for1]
+    by_cases ha : node.2.1.1 ≥ q.hi
+    · simp [ha, rscan]
+    · by_cases hb : q.lo < node.2.1.2
+      · simp [ha, hb, e1, hr, rscan]
+      · simp [ha, hb, hr, rscan]
+
+theorem idx_mid {α : Type} (A B : List α) (c : α) : Rs.idx (A ++ c :: B) A.length = Res.ok c :=
+  Rs.idx_of_getElem? (by simp)
+
+theorem setIdx_mid {α : Type} (A B : List α) (c v : α) : Rs.setIdx (A ++ c :: B) A.length v = Res.ok (A ++ v :: B) := by
+  rw [Rs.setIdx_ok (by simp)]; simp
+
+/-- what the proof needs of a stack cell: it is a node of its level inside the tree of height `K` -/
+def OkC (K : Nat) (c : SC) : Prop := Node c.k c.x ∧ c.x + 2 ^ c.k ≤ 2 ^ (K + 1) ∧ c.k ≤ K
+
+theorem length_le_of_increasing (K : Nat) : ∀ (S : List SC) (k0 : Nat), S.Pairwise (fun c d => c.k < d.k) →
+    (∀ c ∈ S, k0 ≤ c.k ∧ c.k ≤ K) → S.length ≤ K + 1 - k0 := by
+  intro S
+  induction S with
+  | nil => intro k0 _ _; simp
+  | cons c rest ih =>
+    intro k0 hp hb
+    rw [List.pairwise_cons] at hp
+    have hc := hb c List.mem_cons_self
+    have := ih (c.k + 1) hp.2 (fun d hd => ⟨hp.1 d hd, (hb d (List.mem_cons_of_mem _ hd)).2⟩)
+    simp only [List.length_cons]
+    omega
+
+theorem weight_pos (c : SC) : 0 < c.weight := by
+  unfold SC.weight; split
+  · exact Nat.succ_pos _
+  · exact pow3_pos _
+
+theorem find_while_spec (es : List RCell) (q : Query) (K : Nat) (hK : K ≤ 61) :
+    ∀ (S : List SC), (∀ c ∈ S, OkC K c) → S.Pairwise (fun c d => c.k < d.k) →
+    ∀ (A junk : List RSC) (res : List REntry) (fuel : Nat),
+      (A.map toSC).reverse = S → (A ++ junk).length = 64 → stackWeight S < fuel →
+      ∃ stack' R, findInto_while1 Iit.max3 es.length es q.hi q.lo fuel (A.length, res, A ++ junk)
+          = Res.ok (0, res ++ R, stack') ∧ R.map toEntry = findLoop (cells es) es.length q S := by
+  intro S
+  fun_induction findLoop (cells es) es.length q S with
+  | case1 =>
+    intro _ _ A junk res fuel hA hlen hf
+    have : A = [] := by simpa using hA
+    subst this
+    obtain ⟨f, rfl⟩ : ∃ f, fuel = f + 1 := ⟨fuel - 1, by omega⟩
+    exact ⟨junk, [], by simp [findInto_while1], by simp [findLoop]⟩
+  | case2 k x w st hk i0 i1 ih =>
+    intro hok hpw A junk res fuel hA hlen hf
+    obtain ⟨f, rfl⟩ : ∃ f, fuel = f + 1 := ⟨fuel - 1, by omega⟩
+    -- the array: `A = A0 ++ [(k, x, w)]`
+    obtain ⟨A0, rfl, hA0⟩ : ∃ A0, A = A0 ++ [(k, x, w)] ∧ (A0.map toSC).reverse = st := by
+      have h1 : A.map toSC = (⟨k, x, w⟩ :: st).reverse := by rw [← hA, List.reverse_reverse]
+      rcases List.eq_nil_or_concat A with rfl | ⟨A0, c, rfl⟩
+      · simp at h1
+      · simp only [List.concat_eq_append, List.map_append, List.map_cons, List.map_nil, List.reverse_cons] at h1
+        have h2 := List.append_inj' h1 rfl
+        obtain ⟨ck, cx, cw⟩ := c
+        have h3 : toSC (ck, cx, cw) = ⟨k, x, w⟩ := by simpa using h2.2
+        simp only [toSC, SC.mk.injEq] at h3
+        obtain ⟨rfl, rfl, rfl⟩ := h3
+        exact ⟨A0, List.concat_eq_append, by rw [h2.1, List.reverse_reverse]⟩
+    have hst : (A0 ++ [(k, x, w)]) ++ junk = A0 ++ (k, x, w) :: junk := by simp
+    have hlen' : A0.length + 1 + junk.length = 64 := by
+      simp only [List.length_append, List.length_singleton] at hlen; omega
+    have hokc := hok ⟨k, x, w⟩ List.mem_cons_self
+    obtain ⟨hnode, hxb, hkK⟩ := hokc
+    simp only at hnode hxb hkK
+    have hok' : ∀ c ∈ st, OkC K c := fun c hc => hok c (List.mem_cons_of_mem _ hc)
+    rw [List.pairwise_cons] at hpw
+    have hwt : stackWeight (⟨k, x, w⟩ :: st) = (⟨k, x, w⟩ : SC).weight + stackWeight st := by
+      simp [stackWeight]
+    have e_t : Rs.sub (A0.length + 1) 1 = Res.ok A0.length := by rw [Rs.sub_ok (by omega)]; rfl
+    have e_top : Rs.idx (A0 ++ (k, x, w) :: junk) A0.length = Res.ok (k, x, w) := idx_mid A0 junk _
+    rw [findInto_while1, List.length_append, List.length_singleton, hst]
+    simp only [Nat.succ_pos, gt_iff_lt, decide_true, if_true, e_t, Res.ok_bind, e_top]
+    have hx62 : x < 2 ^ 62 := by
+      have : 2 ^ (K + 1) ≤ 2 ^ 62 := Nat.pow_le_pow_right (by omega) (by omega)
+      have := Iit.two_pow_pos k
+      omega
+    have e1 : Rs.shr 64 x k = Res.ok (x >>> k) := Rs.shr_ok (by omega)
+    have hi0le : x >>> k <<< k ≤ x := by
+      rw [Nat.shiftRight_eq_div_pow, Nat.shiftLeft_eq]; exact Nat.div_mul_le_self x (2 ^ k)
+    have e2 : Rs.shl 64 (x >>> k) k = Res.ok (x >>> k <<< k) := by
+      rw [Rs.shl_ok (by omega), Nat.mod_eq_of_lt (Nat.lt_of_le_of_lt hi0le (by omega))]
+    have e3 : Rs.add 64 k 1 = Res.ok (k + 1) := Rs.add_ok (by omega)
+    have hp16 : 2 ^ (k + 1) ≤ 16 := by
+      have : 2 ^ (k + 1) ≤ 2 ^ 4 := Nat.pow_le_pow_right (by omega) (by omega)
+      omega
+    have e4 : Rs.shl 64 1 (k + 1) = Res.ok (1 <<< (k + 1)) := by
+      rw [Rs.shl_ok (by omega), Nat.mod_eq_of_lt (by rw [Nat.one_shiftLeft]; omega)]
+    have hpp : 0 < 1 <<< (k + 1) := by rw [Nat.one_shiftLeft]; exact Iit.two_pow_pos _
+    have e5 : Rs.add 64 (x >>> k <<< k) (1 <<< (k + 1)) = Res.ok (x >>> k <<< k + 1 <<< (k + 1)) :=
+      Rs.add_ok (by rw [Nat.one_shiftLeft]; exact Nat.lt_of_le_of_lt (Nat.add_le_add hi0le hp16) (by omega))
+    have e6 : Rs.sub (x >>> k <<< k + 1 <<< (k + 1)) 1 = Res.ok (x >>> k <<< k + 1 <<< (k + 1) - 1) :=
+      Rs.sub_ok (Nat.le_trans hpp (Nat.le_add_left _ _))
+    have hmem : ∀ p ∈ List.drop i0 (List.take i1 es.zipIdx), es[p.2]? = some p.1 := by
+      intro p hp
+      have := List.mem_of_mem_take (List.mem_of_mem_drop hp)
+      obtain ⟨c, i⟩ := p
+      exact (List.mem_zipIdx_iff_getElem?).mp this
+    have e7 := for1_scan es q (List.drop i0 (List.take i1 es.zipIdx)) res hmem
+    have hfst : (List.drop i0 (List.take i1 es.zipIdx)).map Prod.fst = List.drop i0 (List.take i1 es) := by
+      rw [List.map_drop, List.map_take, List.zipIdx_map_fst]
+    rw [hfst] at e7
+    obtain ⟨stack', R, r1, r2⟩ := ih hok' hpw.2 A0 ((k, x, w) :: junk) (res ++ rscan q (List.drop i0 (List.take i1 es))) f hA0
+      (by simp only [List.length_append, List.length_cons]; omega)
+      (by have := weight_pos ⟨k, x, w⟩; omega)
+    refine ⟨stack', rscan q (List.drop i0 (List.take i1 es)) ++ R, ?_, ?_⟩
+    · simp only [hk, decide_true, if_true, e1, e2, e3, e4, e5, e6, Res.ok_bind, Res.pure_eq_ok]
+      show (do
+          let results ← findInto_for1 Iit.max3 q.hi q.lo es (List.drop i0 (List.take i1 es.zipIdx)) res
+          findInto_while1 Iit.max3 es.length es q.hi q.lo f (A0.length, results, A0 ++ (k, x, w) :: junk)) = _
+      rw [e7, Res.ok_bind, r1, List.append_assoc]
+    · rw [List.map_append, r2, rscan_map]
+      simp only [cells, List.map_drop, List.map_take]
+  | case3 k x w st hk hw y hc ih =>
+    intro hok hpw A junk res fuel hA hlen hf
+    obtain ⟨f, rfl⟩ : ∃ f, fuel = f + 1 := ⟨fuel - 1, by omega⟩
+    -- the array: `A = A0 ++ [(k, x, w)]`
+    obtain ⟨A0, rfl, hA0⟩ : ∃ A0, A = A0 ++ [(k, x, w)] ∧ (A0.map toSC).reverse = st := by
+      have h1 : A.map toSC = (⟨k, x, w⟩ :: st).reverse := by rw [← hA, List.reverse_reverse]
+      rcases List.eq_nil_or_concat A with rfl | ⟨A0, c, rfl⟩
+      · simp at h1
+      · simp only [List.concat_eq_append, List.map_append, List.map_cons, List.map_nil, List.reverse_cons] at h1
+        have h2 := List.append_inj' h1 rfl
+        obtain ⟨ck, cx, cw⟩ := c
+        have h3 : toSC (ck, cx, cw) = ⟨k, x, w⟩ := by simpa using h2.2
+        simp only [toSC, SC.mk.injEq] at h3
+        obtain ⟨rfl, rfl, rfl⟩ := h3
+        exact ⟨A0, List.concat_eq_append, by rw [h2.1, List.reverse_reverse]⟩
+    have hst : (A0 ++ [(k, x, w)]) ++ junk = A0 ++ (k, x, w) :: junk := by simp
+    have hlen' : A0.length + 1 + junk.length = 64 := by
+      simp only [List.length_append, List.length_singleton] at hlen; omega
+    have hokc := hok ⟨k, x, w⟩ List.mem_cons_self
+    obtain ⟨hnode, hxb, hkK⟩ := hokc
+    simp only at hnode hxb hkK
+    have hok' : ∀ c ∈ st, OkC K c := fun c hc => hok c (List.mem_cons_of_mem _ hc)
+    rw [List.pairwise_cons] at hpw
+    have hwt : stackWeight (⟨k, x, w⟩ :: st) = (⟨k, x, w⟩ : SC).weight + stackWeight st := by
+      simp [stackWeight]
+    have e_t : Rs.sub (A0.length + 1) 1 = Res.ok A0.length := by rw [Rs.sub_ok (by omega)]; rfl
+    have e_top : Rs.idx (A0 ++ (k, x, w) :: junk) A0.length = Res.ok (k, x, w) := idx_mid A0 junk _
+    rw [findInto_while1, List.length_append, List.length_singleton, hst]
+    simp only [Nat.succ_pos, gt_iff_lt, decide_true, if_true, e_t, Res.ok_bind, e_top]
+    obtain ⟨j, rfl⟩ : ∃ j, k = j + 1 := ⟨k - 1, by omega⟩
+    have hp := Iit.two_pow_pos j
+    have e2j : 2 ^ (j + 1) = 2 * 2 ^ j := by rw [Nat.pow_succ]; omega
+    have hge := node_ge hnode
+    have hK2 : 2 ^ (K + 1) ≤ 2 ^ 62 := Nat.pow_le_pow_right (by omega) (by omega)
+    have e16 : Rs.sub (j + 1) 1 = Res.ok j := by rw [Rs.sub_ok (by omega)]; rfl
+    have e17 : Rs.shl 64 1 j = Res.ok (2 ^ j) := shl_one j (by omega)
+    have e18 : Rs.sub x (2 ^ j) = Res.ok (x - 2 ^ j) := Rs.sub_ok (by omega)
+    have e18' : Rs.add 64 x (2 ^ j) = Res.ok (x + 2 ^ j) := Rs.add_ok (by omega)
+    have eset : ∀ (c v : RSC) (B : List RSC), Rs.setIdx (A0 ++ c :: B) A0.length v = Res.ok (A0 ++ v :: B) :=
+      fun c v B => setIdx_mid A0 B c v
+    have eidx : ∀ (c : RSC) (B : List RSC), Rs.idx (A0 ++ c :: B) A0.length = Res.ok c := fun c B => idx_mid A0 B c
+    -- the stack is never full: the levels on it increase strictly from the top and are at most `K ≤ 61`
+    have hSlen : (⟨j + 1, x, w⟩ :: st : List SC).length ≤ K + 1 - (j + 1) :=
+      length_le_of_increasing K _ (j + 1) (List.pairwise_cons.mpr hpw) (by
+        intro c hc
+        rcases List.mem_cons.mp hc with rfl | hc
+        · exact ⟨Nat.le_refl _, hkK⟩
+        · exact ⟨Nat.le_of_lt (hpw.1 c hc), (hok' c hc).2.2⟩)
+    have hAlen : A0.length = st.length := by rw [← hA0]; simp
+    obtain ⟨j0, junk', rfl⟩ : ∃ j0 junk', junk = j0 :: junk' := by
+      cases junk with
+      | nil => simp only [List.length_cons, List.length_nil] at hSlen hlen'; omega
+      | cons a b => exact ⟨a, b, rfl⟩
+    have eset1 : ∀ (c d v : RSC) (B : List RSC), Rs.setIdx (A0 ++ c :: d :: B) (A0.length + 1) v
+        = Res.ok (A0 ++ c :: v :: B) := by
+      intro c d v B
+      have := setIdx_mid (A0 ++ [c]) B d v
+      simpa using this
+    have eidx1 : ∀ (c d : RSC) (B : List RSC), Rs.idx (A0 ++ c :: d :: B) (A0.length + 1) = Res.ok d := by
+      intro c d B
+      have := idx_mid (A0 ++ [c]) B d
+      simpa using this
+    have e22 : Rs.add 64 A0.length 1 = Res.ok (A0.length + 1) := Rs.add_ok (by omega)
+    have e29 : Rs.add 64 (A0.length + 1) 1 = Res.ok (A0.length + 2) := Rs.add_ok (by omega)
+    have hy : x - 1 <<< (j + 1 - 1) = x - 2 ^ j := by rw [Nat.add_sub_cancel, Nat.one_shiftLeft]
+    have hwf : w = false := by simpa using hw
+    subst hwf
+    have hyv : y = x - 2 ^ j := hy
+    have hokn : ∀ c ∈ (⟨j + 1 - 1, y, false⟩ : SC) :: ⟨j + 1, x, true⟩ :: st, OkC K c := by
+      intro c hc
+      simp only [List.mem_cons] at hc
+      rcases hc with rfl | rfl | hc
+      · refine ⟨by simp only [Nat.add_sub_cancel]; rw [hyv]; exact node_left hnode, ?_, ?_⟩
+        · simp only [Nat.add_sub_cancel]; rw [hyv]; omega
+        · simp only [Nat.add_sub_cancel]; omega
+      · exact ⟨hnode, hxb, hkK⟩
+      · exact hok' c hc
+    have hpwn : List.Pairwise (fun c d : SC => c.k < d.k) (⟨j + 1 - 1, y, false⟩ :: ⟨j + 1, x, true⟩ :: st) := by
+      refine List.pairwise_cons.mpr ⟨?_, List.pairwise_cons.mpr hpw⟩
+      intro d hd
+      rcases List.mem_cons.mp hd with rfl | hd
+      · simp
+      · have := hpw.1 d hd; simp only [Nat.add_sub_cancel] at *; omega
+    obtain ⟨stack', R, r1, r2⟩ := ih hokn hpwn (A0 ++ [(j + 1, x, true), (j, x - 2 ^ j, false)]) junk' res f
+      (by simp [toSC, hA0, hyv])
+      (by simp only [List.length_append, List.length_cons, List.length_nil] at hlen' ⊢; omega)
+      (by
+        rw [hwt] at hf
+        simp only [stackWeight, List.map_cons, List.sum_cons, SC.weight, Nat.add_sub_cancel] at hf ⊢
+        have := pow3_pos j
+        simp only [Bool.false_eq_true, if_false, if_true, Nat.pow_succ] at hf ⊢
+        omega)
+    have r1' : findInto_while1 Iit.max3 es.length es q.hi q.lo f
+        (A0.length + 2, res, A0 ++ (j + 1, x, true) :: (j, x - 2 ^ j, false) :: junk') = Res.ok (0, res ++ R, stack') := by
+      simpa using r1
+    refine ⟨stack', R, ?_, r2⟩
+    have hkf : ¬ j + 1 ≤ 3 := hk
+    by_cases hyn : x - 2 ^ j ≥ es.length
+    · simp [hkf, e16, e17, e18, eset, eidx, eset1, eidx1, e22, e29, hyn, r1']
+    · have hylt : x - 2 ^ j < es.length := by omega
+      have e23 : Rs.idx es (x - 2 ^ j) = Res.ok es[x - 2 ^ j] := Rs.idx_ok hylt
+      have hmx : es[x - 2 ^ j].2.2 > q.lo := by
+        rcases hc with h | h
+        · rw [hyv] at h; omega
+        · rw [hyv, getC_cells es _ hylt] at h; exact h
+      simp [hkf, e16, e17, e18, eset, eidx, eset1, eidx1, e22, e29, hyn, e23, hmx, r1']
+  | case4 k x w st hk hw y hc ih =>
+    intro hok hpw A junk res fuel hA hlen hf
+    obtain ⟨f, rfl⟩ : ∃ f, fuel = f + 1 := ⟨fuel - 1, by omega⟩
+    -- the array: `A = A0 ++ [(k, x, w)]`
+    obtain ⟨A0, rfl, hA0⟩ : ∃ A0, A = A0 ++ [(k, x, w)] ∧ (A0.map toSC).reverse = st := by
+      have h1 : A.map toSC = (⟨k, x, w⟩ :: st).reverse := by rw [← hA, List.reverse_reverse]
+      rcases List.eq_nil_or_concat A with rfl | ⟨A0, c, rfl⟩
+      · simp at h1
+      · simp only [List.concat_eq_append, List.map_append, List.map_cons, List.map_nil, List.reverse_cons] at h1
+        have h2 := List.append_inj' h1 rfl
+        obtain ⟨ck, cx, cw⟩ := c
+        have h3 : toSC (ck, cx, cw) = ⟨k, x, w⟩ := by simpa using h2.2
+        simp only [toSC, SC.mk.injEq] at h3
+        obtain ⟨rfl, rfl, rfl⟩ := h3
+        exact ⟨A0, List.concat_eq_append, by rw [h2.1, List.reverse_reverse]⟩
+    have hst : (A0 ++ [(k, x, w)]) ++ junk = A0 ++ (k, x, w) :: junk := by simp
+    have hlen' : A0.length + 1 + junk.length = 64 := by
+      simp only [List.length_append, List.length_singleton] at hlen; omega
+    have hokc := hok ⟨k, x, w⟩ List.mem_cons_self
+    obtain ⟨hnode, hxb, hkK⟩ := hokc
+    simp only at hnode hxb hkK
+    have hok' : ∀ c ∈ st, OkC K c := fun c hc => hok c (List.mem_cons_of_mem _ hc)
+    rw [List.pairwise_cons] at hpw
+    have hwt : stackWeight (⟨k, x, w⟩ :: st) = (⟨k, x, w⟩ : SC).weight + stackWeight st := by
+      simp [stackWeight]
+    have e_t : Rs.sub (A0.length + 1) 1 = Res.ok A0.length := by rw [Rs.sub_ok (by omega)]; rfl
+    have e_top : Rs.idx (A0 ++ (k, x, w) :: junk) A0.length = Res.ok (k, x, w) := idx_mid A0 junk _
+    rw [findInto_while1, List.length_append, List.length_singleton, hst]
+    simp only [Nat.succ_pos, gt_iff_lt, decide_true, if_true, e_t, Res.ok_bind, e_top]
+    obtain ⟨j, rfl⟩ : ∃ j, k = j + 1 := ⟨k - 1, by omega⟩
+    have hp := Iit.two_pow_pos j
+    have e2j : 2 ^ (j + 1) = 2 * 2 ^ j := by rw [Nat.pow_succ]; omega
+    have hge := node_ge hnode
+    have hK2 : 2 ^ (K + 1) ≤ 2 ^ 62 := Nat.pow_le_pow_right (by omega) (by omega)
+    have e16 : Rs.sub (j + 1) 1 = Res.ok j := by rw [Rs.sub_ok (by omega)]; rfl
+    have e17 : Rs.shl 64 1 j = Res.ok (2 ^ j) := shl_one j (by omega)
+    have e18 : Rs.sub x (2 ^ j) = Res.ok (x - 2 ^ j) := Rs.sub_ok (by omega)
+    have e18' : Rs.add 64 x (2 ^ j) = Res.ok (x + 2 ^ j) := Rs.add_ok (by omega)
+    have eset : ∀ (c v : RSC) (B : List RSC), Rs.setIdx (A0 ++ c :: B) A0.length v = Res.ok (A0 ++ v :: B) :=
+      fun c v B => setIdx_mid A0 B c v
+    have eidx : ∀ (c : RSC) (B : List RSC), Rs.idx (A0 ++ c :: B) A0.length = Res.ok c := fun c B => idx_mid A0 B c
+    -- the stack is never full: the levels on it increase strictly from the top and are at most `K ≤ 61`
+    have hSlen : (⟨j + 1, x, w⟩ :: st : List SC).length ≤ K + 1 - (j + 1) :=
+      length_le_of_increasing K _ (j + 1) (List.pairwise_cons.mpr hpw) (by
+        intro c hc
+        rcases List.mem_cons.mp hc with rfl | hc
+        · exact ⟨Nat.le_refl _, hkK⟩
+        · exact ⟨Nat.le_of_lt (hpw.1 c hc), (hok' c hc).2.2⟩)
+    have hAlen : A0.length = st.length := by rw [← hA0]; simp
+    obtain ⟨j0, junk', rfl⟩ : ∃ j0 junk', junk = j0 :: junk' := by
+      cases junk with
+      | nil => simp only [List.length_cons, List.length_nil] at hSlen hlen'; omega
+      | cons a b => exact ⟨a, b, rfl⟩
+    have eset1 : ∀ (c d v : RSC) (B : List RSC), Rs.setIdx (A0 ++ c :: d :: B) (A0.length + 1) v
+        = Res.ok (A0 ++ c :: v :: B) := by
+      intro c d v B
+      have := setIdx_mid (A0 ++ [c]) B d v
+      simpa using this
+    have eidx1 : ∀ (c d : RSC) (B : List RSC), Rs.idx (A0 ++ c :: d :: B) (A0.length + 1) = Res.ok d := by
+      intro c d B
+      have := idx_mid (A0 ++ [c]) B d
+      simpa using this
+    have e22 : Rs.add 64 A0.length 1 = Res.ok (A0.length + 1) := Rs.add_ok (by omega)
+    have e29 : Rs.add 64 (A0.length + 1) 1 = Res.ok (A0.length + 2) := Rs.add_ok (by omega)
+    have hy : x - 1 <<< (j + 1 - 1) = x - 2 ^ j := by rw [Nat.add_sub_cancel, Nat.one_shiftLeft]
+    have hwf : w = false := by simpa using hw
+    subst hwf
+    have hyv : y = x - 2 ^ j := hy
+    have hokn : ∀ c ∈ (⟨j + 1, x, true⟩ : SC) :: st, OkC K c := by
+      intro c hc
+      rcases List.mem_cons.mp hc with rfl | hc
+      · exact ⟨hnode, hxb, hkK⟩
+      · exact hok' c hc
+    obtain ⟨stack', R, r1, r2⟩ := ih hokn (List.pairwise_cons.mpr hpw) (A0 ++ [(j + 1, x, true)]) (j0 :: junk') res f
+      (by simp [toSC, hA0])
+      (by simp only [List.length_append, List.length_cons, List.length_nil] at hlen' ⊢; omega)
+      (by
+        rw [hwt] at hf
+        simp only [stackWeight, List.map_cons, List.sum_cons, SC.weight] at hf ⊢
+        have := pow3_pos (j + 1)
+        simp only [Bool.false_eq_true, if_false, if_true, Nat.pow_succ] at hf ⊢
+        omega)
+    have r1' : findInto_while1 Iit.max3 es.length es q.hi q.lo f
+        (A0.length + 1, res, A0 ++ (j + 1, x, true) :: j0 :: junk') = Res.ok (0, res ++ R, stack') := by
+      simpa using r1
+    refine ⟨stack', R, ?_, r2⟩
+    have hkf : ¬ j + 1 ≤ 3 := hk
+    have hyn : ¬ x - 2 ^ j ≥ es.length := by
+      intro h; exact hc (Or.inl (by rw [hyv]; exact h))
+    have hylt : x - 2 ^ j < es.length := by omega
+    have e23 : Rs.idx es (x - 2 ^ j) = Res.ok es[x - 2 ^ j] := Rs.idx_ok hylt
+    have hmx : ¬ es[x - 2 ^ j].2.2 > q.lo := by
+      intro h; exact hc (Or.inr (by rw [hyv, getC_cells es _ hylt]; exact h))
+    simp [hkf, e16, e17, e18, eset, eidx, eset1, eidx1, e22, e29, hyn, e23, hmx, r1']
+  | case5 k x w st hk hw hc ih =>
+    intro hok hpw A junk res fuel hA hlen hf
+    obtain ⟨f, rfl⟩ : ∃ f, fuel = f + 1 := ⟨fuel - 1, by omega⟩
+    -- the array: `A = A0 ++ [(k, x, w)]`
+    obtain ⟨A0, rfl, hA0⟩ : ∃ A0, A = A0 ++ [(k, x, w)] ∧ (A0.map toSC).reverse = st := by
+      have h1 : A.map toSC = (⟨k, x, w⟩ :: st).reverse := by rw [← hA, List.reverse_reverse]
+      rcases List.eq_nil_or_concat A with rfl | ⟨A0, c, rfl⟩
+      · simp at h1
+      · simp only [List.concat_eq_append, List.map_append, List.map_cons, List.map_nil, List.reverse_cons] at h1
+        have h2 := List.append_inj' h1 rfl
+        obtain ⟨ck, cx, cw⟩ := c
+        have h3 : toSC (ck, cx, cw) = ⟨k, x, w⟩ := by simpa using h2.2
+        simp only [toSC, SC.mk.injEq] at h3
+        obtain ⟨rfl, rfl, rfl⟩ := h3
+        exact ⟨A0, List.concat_eq_append, by rw [h2.1, List.reverse_reverse]⟩
+    have hst : (A0 ++ [(k, x, w)]) ++ junk = A0 ++ (k, x, w) :: junk := by simp
+    have hlen' : A0.length + 1 + junk.length = 64 := by
+      simp only [List.length_append, List.length_singleton] at hlen; omega
+    have hokc := hok ⟨k, x, w⟩ List.mem_cons_self
+    obtain ⟨hnode, hxb, hkK⟩ := hokc
+    simp only at hnode hxb hkK
+    have hok' : ∀ c ∈ st, OkC K c := fun c hc => hok c (List.mem_cons_of_mem _ hc)
+    rw [List.pairwise_cons] at hpw
+    have hwt : stackWeight (⟨k, x, w⟩ :: st) = (⟨k, x, w⟩ : SC).weight + stackWeight st := by
+      simp [stackWeight]
+    have e_t : Rs.sub (A0.length + 1) 1 = Res.ok A0.length := by rw [Rs.sub_ok (by omega)]; rfl
+    have e_top : Rs.idx (A0 ++ (k, x, w) :: junk) A0.length = Res.ok (k, x, w) := idx_mid A0 junk _
+    rw [findInto_while1, List.length_append, List.length_singleton, hst]
+    simp only [Nat.succ_pos, gt_iff_lt, decide_true, if_true, e_t, Res.ok_bind, e_top]
+    obtain ⟨j, rfl⟩ : ∃ j, k = j + 1 := ⟨k - 1, by omega⟩
+    have hp := Iit.two_pow_pos j
+    have e2j : 2 ^ (j + 1) = 2 * 2 ^ j := by rw [Nat.pow_succ]; omega
+    have hge := node_ge hnode
+    have hK2 : 2 ^ (K + 1) ≤ 2 ^ 62 := Nat.pow_le_pow_right (by omega) (by omega)
+    have e16 : Rs.sub (j + 1) 1 = Res.ok j := by rw [Rs.sub_ok (by omega)]; rfl
+    have e17 : Rs.shl 64 1 j = Res.ok (2 ^ j) := shl_one j (by omega)
+    have e18 : Rs.sub x (2 ^ j) = Res.ok (x - 2 ^ j) := Rs.sub_ok (by omega)
+    have e18' : Rs.add 64 x (2 ^ j) = Res.ok (x + 2 ^ j) := Rs.add_ok (by omega)
+    have eset : ∀ (c v : RSC) (B : List RSC), Rs.setIdx (A0 ++ c :: B) A0.length v = Res.ok (A0 ++ v :: B) :=
+      fun c v B => setIdx_mid A0 B c v
+    have eidx : ∀ (c : RSC) (B : List RSC), Rs.idx (A0 ++ c :: B) A0.length = Res.ok c := fun c B => idx_mid A0 B c
+    -- the stack is never full: the levels on it increase strictly from the top and are at most `K ≤ 61`
+    have hSlen : (⟨j + 1, x, w⟩ :: st : List SC).length ≤ K + 1 - (j + 1) :=
+      length_le_of_increasing K _ (j + 1) (List.pairwise_cons.mpr hpw) (by
+        intro c hc
+        rcases List.mem_cons.mp hc with rfl | hc
+        · exact ⟨Nat.le_refl _, hkK⟩
+        · exact ⟨Nat.le_of_lt (hpw.1 c hc), (hok' c hc).2.2⟩)
+    have hAlen : A0.length = st.length := by rw [← hA0]; simp
+    obtain ⟨j0, junk', rfl⟩ : ∃ j0 junk', junk = j0 :: junk' := by
+      cases junk with
+      | nil => simp only [List.length_cons, List.length_nil] at hSlen hlen'; omega
+      | cons a b => exact ⟨a, b, rfl⟩
+    have eset1 : ∀ (c d v : RSC) (B : List RSC), Rs.setIdx (A0 ++ c :: d :: B) (A0.length + 1) v
+        = Res.ok (A0 ++ c :: v :: B) := by
+      intro c d v B
+      have := setIdx_mid (A0 ++ [c]) B d v
+      simpa using this
+    have eidx1 : ∀ (c d : RSC) (B : List RSC), Rs.idx (A0 ++ c :: d :: B) (A0.length + 1) = Res.ok d := by
+      intro c d B
+      have := idx_mid (A0 ++ [c]) B d
+      simpa using this
+    have e22 : Rs.add 64 A0.length 1 = Res.ok (A0.length + 1) := Rs.add_ok (by omega)
+    have e29 : Rs.add 64 (A0.length + 1) 1 = Res.ok (A0.length + 2) := Rs.add_ok (by omega)
+    have hy : x - 1 <<< (j + 1 - 1) = x - 2 ^ j := by rw [Nat.add_sub_cancel, Nat.one_shiftLeft]
+    have hwt' : w = true := by simpa using hw
+    subst hwt'
+    have hxn : x < es.length := hc.1
+    have e30 : Rs.idx es x = Res.ok es[x] := Rs.idx_ok hxn
+    have hgx : getC (cells es) x = toCell es[x] := getC_cells es x hxn
+    have hlo : es[x].2.1.1 < q.hi := by have := hc.2; rw [hgx] at this; exact this
+    have hokn : ∀ c ∈ (⟨j + 1 - 1, x + 1 <<< (j + 1 - 1), false⟩ : SC) :: st, OkC K c := by
+      intro c hc'
+      rcases List.mem_cons.mp hc' with rfl | hc'
+      · simp only [Nat.add_sub_cancel, Nat.one_shiftLeft]
+        refine ⟨node_right hnode, ?_, ?_⟩
+        · show x + 2 ^ j + 2 ^ j ≤ 2 ^ (K + 1); omega
+        · show j ≤ K; omega
+      · exact hok' c hc'
+    have hpwn : List.Pairwise (fun c d : SC => c.k < d.k) (⟨j + 1 - 1, x + 1 <<< (j + 1 - 1), false⟩ :: st) := by
+      refine List.pairwise_cons.mpr ⟨?_, hpw.2⟩
+      intro d hd
+      have := hpw.1 d hd; simp only [Nat.add_sub_cancel] at *; omega
+    have hfuel : stackWeight ((⟨j + 1 - 1, x + 1 <<< (j + 1 - 1), false⟩ : SC) :: st) < f := by
+      rw [hwt] at hf
+      simp only [stackWeight, List.map_cons, List.sum_cons, SC.weight, Nat.add_sub_cancel] at hf ⊢
+      simp only [Bool.false_eq_true, if_false, if_true] at hf ⊢
+      omega
+    have hkf : ¬ j + 1 ≤ 3 := hk
+    by_cases hov : q.lo < es[x].2.1.2
+    · obtain ⟨stack', R, r1, r2⟩ := ih hokn hpwn (A0 ++ [(j, x + 2 ^ j, false)]) (j0 :: junk')
+        (res ++ [(es[x].2.1, es[x].1)]) f
+        (by simp [toSC, hA0, Nat.one_shiftLeft])
+        (by simp only [List.length_append, List.length_cons, List.length_nil] at hlen' ⊢; omega) hfuel
+      have r1' : findInto_while1 Iit.max3 es.length es q.hi q.lo f
+          (A0.length + 1, res ++ [(es[x].2.1, es[x].1)], A0 ++ (j, x + 2 ^ j, false) :: j0 :: junk')
+            = Res.ok (0, res ++ [(es[x].2.1, es[x].1)] ++ R, stack') := by
+        simpa using r1
+      refine ⟨stack', (es[x].2.1, es[x].1) :: R, ?_, ?_⟩
+      · simp [hkf, e16, e17, e18', eset, eidx, e22, hxn, e30, hlo, hov, r1']
+      · have hhi : q.lo < (toCell es[x]).e.hi := hov
+        simp only [List.map_cons, r2, hgx, hhi, if_true, List.cons_append, List.nil_append]
+        rfl
+    · obtain ⟨stack', R, r1, r2⟩ := ih hokn hpwn (A0 ++ [(j, x + 2 ^ j, false)]) (j0 :: junk') res f
+        (by simp [toSC, hA0, Nat.one_shiftLeft])
+        (by simp only [List.length_append, List.length_cons, List.length_nil] at hlen' ⊢; omega) hfuel
+      have r1' : findInto_while1 Iit.max3 es.length es q.hi q.lo f
+          (A0.length + 1, res, A0 ++ (j, x + 2 ^ j, false) :: j0 :: junk') = Res.ok (0, res ++ R, stack') := by
+        simpa using r1
+      refine ⟨stack', R, ?_, ?_⟩
+      · simp [hkf, e16, e17, e18', eset, eidx, e22, hxn, e30, hlo, hov, r1']
+      · have hhi : ¬ q.lo < (toCell es[x]).e.hi := hov
+        simp only [r2, hgx, hhi, if_false, List.nil_append]
+  | case6 k x w st hk hw hc ih =>
+    intro hok hpw A junk res fuel hA hlen hf
+    obtain ⟨f, rfl⟩ : ∃ f, fuel = f + 1 := ⟨fuel - 1, by omega⟩
+    -- the array: `A = A0 ++ [(k, x, w)]`
+    obtain ⟨A0, rfl, hA0⟩ : ∃ A0, A = A0 ++ [(k, x, w)] ∧ (A0.map toSC).reverse = st := by
+      have h1 : A.map toSC = (⟨k, x, w⟩ :: st).reverse := by rw [← hA, List.reverse_reverse]
+      rcases List.eq_nil_or_concat A with rfl | ⟨A0, c, rfl⟩
+      · simp at h1
+      · simp only [List.concat_eq_append, List.map_append, List.map_cons, List.map_nil, List.reverse_cons] at h1
+        have h2 := List.append_inj' h1 rfl
+        obtain ⟨ck, cx, cw⟩ := c
+        have h3 : toSC (ck, cx, cw) = ⟨k, x, w⟩ := by simpa using h2.2
+        simp only [toSC, SC.mk.injEq] at h3
+        obtain ⟨rfl, rfl, rfl⟩ := h3
+        exact ⟨A0, List.concat_eq_append, by rw [h2.1, List.reverse_reverse]⟩
+    have hst : (A0 ++ [(k, x, w)]) ++ junk = A0 ++ (k, x, w) :: junk := by simp
+    have hlen' : A0.length + 1 + junk.length = 64 := by
+      simp only [List.length_append, List.length_singleton] at hlen; omega
+    have hokc := hok ⟨k, x, w⟩ List.mem_cons_self
+    obtain ⟨hnode, hxb, hkK⟩ := hokc
+    simp only at hnode hxb hkK
+    have hok' : ∀ c ∈ st, OkC K c := fun c hc => hok c (List.mem_cons_of_mem _ hc)
+    rw [List.pairwise_cons] at hpw
+    have hwt : stackWeight (⟨k, x, w⟩ :: st) = (⟨k, x, w⟩ : SC).weight + stackWeight st := by
+      simp [stackWeight]
+    have e_t : Rs.sub (A0.length + 1) 1 = Res.ok A0.length := by rw [Rs.sub_ok (by omega)]; rfl
+    have e_top : Rs.idx (A0 ++ (k, x, w) :: junk) A0.length = Res.ok (k, x, w) := idx_mid A0 junk _
+    rw [findInto_while1, List.length_append, List.length_singleton, hst]
+    simp only [Nat.succ_pos, gt_iff_lt, decide_true, if_true, e_t, Res.ok_bind, e_top]
+    obtain ⟨j, rfl⟩ : ∃ j, k = j + 1 := ⟨k - 1, by omega⟩
+    have hp := Iit.two_pow_pos j
+    have e2j : 2 ^ (j + 1) = 2 * 2 ^ j := by rw [Nat.pow_succ]; omega
+    have hge := node_ge hnode
+    have hK2 : 2 ^ (K + 1) ≤ 2 ^ 62 := Nat.pow_le_pow_right (by omega) (by omega)
+    have e16 : Rs.sub (j + 1) 1 = Res.ok j := by rw [Rs.sub_ok (by omega)]; rfl
+    have e17 : Rs.shl 64 1 j = Res.ok (2 ^ j) := shl_one j (by omega)
+    have e18 : Rs.sub x (2 ^ j) = Res.ok (x - 2 ^ j) := Rs.sub_ok (by omega)
+    have e18' : Rs.add 64 x (2 ^ j) = Res.ok (x + 2 ^ j) := Rs.add_ok (by omega)
+    have eset : ∀ (c v : RSC) (B : List RSC), Rs.setIdx (A0 ++ c :: B) A0.length v = Res.ok (A0 ++ v :: B) :=
+      fun c v B => setIdx_mid A0 B c v
+    have eidx : ∀ (c : RSC) (B : List RSC), Rs.idx (A0 ++ c :: B) A0.length = Res.ok c := fun c B => idx_mid A0 B c
+    -- the stack is never full: the levels on it increase strictly from the top and are at most `K ≤ 61`
+    have hSlen : (⟨j + 1, x, w⟩ :: st : List SC).length ≤ K + 1 - (j + 1) :=
+      length_le_of_increasing K _ (j + 1) (List.pairwise_cons.mpr hpw) (by
+        intro c hc
+        rcases List.mem_cons.mp hc with rfl | hc
+        · exact ⟨Nat.le_refl _, hkK⟩
+        · exact ⟨Nat.le_of_lt (hpw.1 c hc), (hok' c hc).2.2⟩)
+    have hAlen : A0.length = st.length := by rw [← hA0]; simp
+    obtain ⟨j0, junk', rfl⟩ : ∃ j0 junk', junk = j0 :: junk' := by
+      cases junk with
+      | nil => simp only [List.length_cons, List.length_nil] at hSlen hlen'; omega
+      | cons a b => exact ⟨a, b, rfl⟩
+    have eset1 : ∀ (c d v : RSC) (B : List RSC), Rs.setIdx (A0 ++ c :: d :: B) (A0.length + 1) v
+        = Res.ok (A0 ++ c :: v :: B) := by
+      intro c d v B
+      have := setIdx_mid (A0 ++ [c]) B d v
+      simpa using this
+    have eidx1 : ∀ (c d : RSC) (B : List RSC), Rs.idx (A0 ++ c :: d :: B) (A0.length + 1) = Res.ok d := by
+      intro c d B
+      have := idx_mid (A0 ++ [c]) B d
+      simpa using this
+    have e22 : Rs.add 64 A0.length 1 = Res.ok (A0.length + 1) := Rs.add_ok (by omega)
+    have e29 : Rs.add 64 (A0.length + 1) 1 = Res.ok (A0.length + 2) := Rs.add_ok (by omega)
+    have hy : x - 1 <<< (j + 1 - 1) = x - 2 ^ j := by rw [Nat.add_sub_cancel, Nat.one_shiftLeft]
+    have hwt' : w = true := by simpa using hw
+    subst hwt'
+    obtain ⟨stack', R, r1, r2⟩ := ih hok' hpw.2 A0 ((j + 1, x, true) :: j0 :: junk') res f hA0
+      (by simp only [List.length_append, List.length_cons] at hlen' ⊢; omega)
+      (by have := weight_pos ⟨j + 1, x, true⟩; omega)
+    refine ⟨stack', R, ?_, r2⟩
+    have hkf : ¬ j + 1 ≤ 3 := hk
+    by_cases hxn : x < es.length
+    · have e30 : Rs.idx es x = Res.ok es[x] := Rs.idx_ok hxn
+      have hlo : ¬ es[x].2.1.1 < q.hi := by
+        intro h; exact hc ⟨hxn, by rw [getC_cells es x hxn]; exact h⟩
+      simp [hkf, hxn, e30, hlo, r1]
+    · simp [hkf, hxn, r1]
+
+
+/-- **`find_into` as written in the source = the mirror model's search**, for an indexed tree with `max_level ≤ 61`,
+whatever the result buffer held before -/
+theorem findInto_eq_model (es : List RCell) (K : Nat) (hK : K ≤ 61) (q : Query) (res0 : List REntry) :
+    ∃ R, findInto Iit.max3 es K true (q.lo, q.hi) res0 = Res.ok R ∧
+      R.map toEntry = findLoop (cells es) es.length q [⟨K, (1 <<< K) - 1, false⟩] := by
+  have hp := Iit.two_pow_pos K
+  have e2K : 2 ^ (K + 1) = 2 * 2 ^ K := by rw [Nat.pow_succ]; omega
+  have hok : ∀ c ∈ [(⟨K, 2 ^ K - 1, false⟩ : SC)], OkC K c := by
+    intro c hc
+    have : c = ⟨K, 2 ^ K - 1, false⟩ := by simpa using hc
+    subst this
+    exact ⟨node_root K, by show 2 ^ K - 1 + 2 ^ K ≤ 2 ^ (K + 1); omega, Nat.le_refl _⟩
+  obtain ⟨stack', R, r1, r2⟩ := find_while_spec es q K hK [⟨K, 2 ^ K - 1, false⟩] hok (by simp)
+    [(K, 2 ^ K - 1, false)] (List.replicate 63 (0, 0, false)) [] (3 ^ (K + 2)) (by simp [toSC]) (by simp)
+    (by
+      simp only [stackWeight, List.map_cons, List.map_nil, List.sum_cons, List.sum_nil, SC.weight,
+        Bool.false_eq_true, if_false, Nat.add_zero]
+      have := pow3_pos (K + 1)
+      rw [Nat.pow_succ 3 (K + 1)]; omega)
+  refine ⟨R, ?_, by rw [r2, Nat.one_shiftLeft]⟩
+  have hrep : List.replicate 64 ((0, 0, false) : RSC) = (0, 0, false) :: List.replicate 63 (0, 0, false) := rfl
+  have ei : ∀ (c : RSC) (B : List RSC), Rs.idx (c :: B) 0 = Res.ok c := fun c B => idx_mid [] B c
+  have esx : ∀ (c v : RSC) (B : List RSC), Rs.setIdx (c :: B) 0 v = Res.ok (v :: B) := fun c v B => setIdx_mid [] B c v
+  have e1 : Rs.shl 64 1 K = Res.ok (2 ^ K) := shl_one K (by omega)
+  have e2 : Rs.sub (2 ^ K) 1 = Res.ok (2 ^ K - 1) := Rs.sub_ok (by omega)
+  have r1' : findInto_while1 Iit.max3 es.length es q.hi q.lo (3 ^ (K + 2))
+      (1, [], (K, 2 ^ K - 1, false) :: List.replicate 63 (0, 0, false)) = Res.ok (0, R, stack') := by
+    simpa using r1
+  unfold findInto
+  simp only [Bool.not_true, Bool.false_eq_true, if_false, hrep, ei, esx, e1, e2, Res.ok_bind, r1', Res.pure_eq_ok]
+
+/-- an un-indexed tree refuses the query -/
+theorem findInto_not_indexed (es : List RCell) (K : Nat) (iv : Int × Int) (res0 : List REntry) :
+    findInto Iit.max3 es K false iv res0 = Res.panic := by
+  simp [findInto]
+
+/-- the level `index_core` leaves behind is at most 61 for fewer than `2^62` entries (and unchanged on the empty tree) -/
+theorem indexCore_level_le (a : List Cell) (ml : Nat) (hml : ml ≤ 61) (hn : a.length < 2 ^ 62) :
+    (Iit.indexCore a ml).2 ≤ 61 := by
+  unfold Iit.indexCore
+  split
+  · exact hml
+  · rename_i he
+    have hpos : a.length ≠ 0 := by
+      intro h0; apply he; simpa using List.eq_nil_of_length_eq_zero h0
+    show Nat.log2 a.length ≤ 61
+    have : Nat.log2 a.length < 62 := (Nat.log2_lt hpos).mpr hn
+    omega
+
 end RbV.Thm.GenSrcIit
